@@ -405,6 +405,39 @@ func faultAttempt(ss *session, l *hist.Layout, spec AttemptSpec) (attempt, func(
 	return at, cleanup
 }
 
+// oldFileEnd is the end of the file a rotation / file-end unit closes.
+func oldFileEnd(l *hist.Layout, u int) hist.Pos {
+	p := l.UnitStart[u]
+	for _, e := range l.Events {
+		if e.Unit == u && !e.Virtual {
+			p = hist.Pos{File: l.Files[e.File], Off: e.End}
+		}
+	}
+	return p
+}
+
+// resumedLabels is exp with the start label of its first transaction replaced by what a stream that was
+// asked to start at req labels it with: the start position itself when no rotation lies between it and the
+// transaction (C03: "the previous transaction's end label, or the initial position, or the target of an
+// intervening log rotation").  It only differs from exp when the streamer resumed at an allowed point other
+// than the commit boundary (a unit boundary between two transactions).
+func resumedLabels(l *hist.Layout, exp []hist.ExpTx, req hist.Pos) []hist.ExpTx {
+	if len(exp) == 0 || exp[0].Now == req {
+		return exp
+	}
+	u, ok := l.UnitAt(req)
+	if !ok || u > exp[0].Unit {
+		return exp
+	}
+	e2 := l.Expected(req, u)
+	if len(e2) == 0 || e2[0].Unit != exp[0].Unit {
+		return exp
+	}
+	out := append([]hist.ExpTx{}, exp...)
+	out[0].Now = e2[0].Now
+	return out
+}
+
 // allowedResume lists the coordinates a next attempt may ask for when `a`
 // transactions of exp have been accepted: the end label of the last accepted
 // one, or any unit boundary up to (and including) the start of the next
@@ -429,6 +462,9 @@ func allowedResume(l *hist.Layout, exp []hist.ExpTx, a int, start hist.Pos, star
 			}
 			if u < last && (l.H.Units[u].Kind == hist.URotate || l.H.Units[u].Kind == hist.UFileEnd) {
 				ok[hist.Pos{File: l.H.Units[u].NextFile, Off: 4}] = true
+				// ... and the end of the file that is left (behind its STOP or ROTATE event): a dump asked
+				// for there is continued by the master in the next file like one asked for at its start
+				ok[oldFileEnd(l, u)] = true
 			}
 		} else if n := len(l.UnitEnd); n > 0 {
 			ok[l.UnitEnd[n-1]] = true
